@@ -548,3 +548,25 @@ Proof.
     destruct P as [NC NU].
     rewrite (blank_false_prefixed _ _ NU NC), (split_colon_app _ _ NC), L. reflexivity.
 Qed.
+
+(* ---- a full URI given as a string or Identifier: when the part before its first colon is not a prefix the
+   manager knows, the name found by compaction (the first namespace whose URI the string starts with) has
+   exactly that URI — str_value[len(namespace.uri):] (as repaired; replace() dropped every occurrence) *)
+Lemma starts_with_drop : forall p s, starts_with p s = true -> p ++ drop (String.length p) s = s.
+Proof.
+  induction p as [|a p IH]; intros s H; [reflexivity|].
+  destruct s as [|b s]; [discriminate|]. cbn [starts_with] in H.
+  destruct (Ascii.eqb a b) eqn:E; [|discriminate]. apply Ascii.eqb_eq in E. subst b.
+  cbn [String.length drop append]. rewrite (IH s H). reflexivity.
+Qed.
+
+Theorem compaction_preserves_uri : forall m s b p l q,
+  split_colon s = Some (p, l) -> lookup p (tbl m) = None -> lookup p (prenmap m) = None ->
+  resolve_str1 m s b = SFound q -> qn_uri q = s.
+Proof.
+  intros m s b p l q SC L1 L2 H. unfold resolve_str1 in H.
+  destruct (starts_with "_:" s); [discriminate|]. rewrite SC, L1, L2 in H.
+  destruct (find _ (tbl m)) as [[k n]|] eqn:EF; [|discriminate].
+  inversion H; subst q. apply find_some in EF. destruct EF as [_ SW]. cbn [snd] in SW.
+  unfold qn_uri. cbn [qn_ns qn_local]. apply starts_with_drop. exact SW.
+Qed.
